@@ -124,6 +124,11 @@ muts=[
                     Ok(length) => Some(length),
                     Err(_) => return Err(RequestCreationError::InvalidContentLength),
                 }""","""                FromStr::from_str(value).ok()""",["C16"],[]),
+ ("C09-into_writer-drops-body-first (reverts fix 952e713)","src/request.rs","""        let body = self.data_reader.take();
+        let writer = Box::new(WriterThenBody {""","""        let body: Option<Box<dyn Read + Send + 'static>> = None;
+        let writer = Box::new(WriterThenBody {""",["C09"],[]),
+ ("C14-te-nan-kept (reverts fix 4061d0a)","src/response.rs","""            parse.retain(|elem| !elem.1.is_nan());
+""","",["C14"],[]),
  ("C06-respond-no-flush","src/request.rs","""        Self::ignore_client_closing_errors(writer.flush())
     }""","""        Ok(())
     }""",["C06","C08"],["C01"]),
